@@ -1593,3 +1593,36 @@ process_copy_data = Spec(
     # converted into one SFTP status reply by the caller (_process_packet)
     raises={'SFTPError': True, 'PacketDecodeError': True, 'OSError': True})
 process_copy_data.feasible_timeout_ms = 300
+
+
+# ====================================================================== connection.py: global request waiters
+# every GLOBAL_REQUEST response consumes exactly ONE waiter whatever that waiter's state (pending, cancelled by a
+# caller that timed out): the list shrinks by one.  _cleanup() answers all outstanding waiters in a
+# `while self._global_request_waiters:` loop whose only progress is that shrinking: (1) variant = len(list).
+WAITERS = 'seq[opaque:Waiter]'
+GCONN = {'SSHConnection': {'_global_request_waiters': WAITERS}}
+
+process_global_response = Spec(
+    PROP, 'connection', 'SSHConnection._process_global_response', self_class='SSHConnection',
+    params=dict(pkttype='int', _pktid='int', packet='obj:SSHPacket'), classes=dict(PK, **GCONN),
+    # asyncio.Future: cancelled() -> bool; set_result on a future that is not done does not raise
+    stubs={'waiter.cancelled': ret('bool', 'cancelled'), 'waiter.set_result': noop('set_result')},
+    modifies=['_global_request_waiters'],
+    ensures=[('consumes-exactly-one-waiter-whatever-its-state', lambda c: z3.And(
+        z3.Length(c.old('_global_request_waiters')) >= 1,
+        c.new('_global_request_waiters') == z3.Extract(c.old('_global_request_waiters'), 1,
+                                                       z3.Length(c.old('_global_request_waiters')) - 1)))],
+    raises={'ProtocolError': lambda c: z3.And(z3.Length(c.old('_global_request_waiters')) == 0,
+                                              c.new('_global_request_waiters') == c.old('_global_request_waiters'))})
+
+cleanup_waiter_loop = Spec(
+    PROP, 'connection', 'SSHConnection._cleanup', self_class='SSHConnection', params={'exc': 'any'},
+    classes=dict(PK, **GCONN), inline={k: v for k, v in PACKET_INLINE.items() if k.endswith('__init__')},
+    # the loop that fails all outstanding global requests when the connection goes away
+    region=lambda fn: [st for st in fn.body if isinstance(st, _ast.While)][:1],
+    stubs={'self._process_global_response': contract_stub(lambda: process_global_response)},
+    loops={n: LoopSpec(header='self._global_request_waiters', modifies=['_global_request_waiters'],
+                       invariant=lambda c: z3.BoolVal(True),
+                       variant=lambda c: z3.Length(c.new('_global_request_waiters'))) for n in (1, 2, 3, 4)},
+    ensures=[('no-waiter-left', lambda c: z3.Length(c.new('_global_request_waiters')) == 0)],
+    raises={})
